@@ -4,7 +4,9 @@
 (* its own, directly on Pipeline.tla): every built-in x every              *)
 (* argument tuple (indexes into the boundary pool) up to one more than its *)
 (* maximal arity, with the prediction which tuples are arity errors; and   *)
-(* every token string up to MaxTok over the token alphabet.                *)
+(* every token string up to MaxTok over the token alphabet; and the        *)
+(* function-call matrix (parameter form x body form x call site x argument *)
+(* count) as whole programs.                                               *)
 (***************************************************************************)
 EXTENDS BuiltinTable, Json
 
@@ -15,13 +17,39 @@ Tokens == {"1", "a", "\"s\"", "(", ")", "[", "]", "{", "}", ",", ":", "+", "-", 
 TupleLens(name) == 0..(IF BuiltinArity[name].hi = 99 THEN BuiltinArity[name].lo + 2 ELSE BuiltinArity[name].hi + 1)
 PoolFor(k) == IF k <= 2 THEN 1..PoolSize ELSE IF k = 3 THEN 1..SmallPool ELSE 1..3
 
+\* The function-call matrix: every parameter form x body form x way of reaching the function x argument count, as whole
+\* programs run with inputs {"a": 4}.  `k` is a top-level name bound before the function is created (captured), `t` is not.
+ParamForms == {"()", "p", "(p, q?)", "(...p)", "(p?, ...q)", "(inputs)", "(k)"}
+BodyForms  == {"1", "p", "k + 1", "inputs.a", "#a", "(t = 1) + t", "(t = inputs.a) + 1", "(t = k) + 1", "(k = 2) + 1",
+               "do {\n  t = inputs.a\n  return [t, k]\n}", "[p, k, inputs.a, #a]", "y => [p, k, y]", "g2(1)"}
+ArgForms   == {"", "1", "1, [2]"}
+Sites      == {"iife", "named", "field", "item", "map", "via", "into", "where", "returned", "do", "output", "reduce", "nested"}
+Program(ps, b, site, args) ==
+  LET F == ps \o " => " \o b  P == "(" \o F \o ")" IN
+  "k = 7\n" \o
+  (CASE site = "iife"     -> P \o "(" \o args \o ")"
+     [] site = "named"    -> "g = " \o F \o "\ng(" \o args \o ")"
+     [] site = "field"    -> "r = {v: " \o F \o "}\nr.v(" \o args \o ")"
+     [] site = "item"     -> "l = [" \o F \o "]\nl[0](" \o args \o ")"
+     [] site = "map"      -> "map([1, 2], " \o F \o ")"
+     [] site = "via"      -> "[1, 2] via " \o P
+     [] site = "into"     -> "5 into " \o P
+     [] site = "where"    -> "[1, 2] where " \o P
+     [] site = "returned" -> "mk = () => " \o P \o "\nmk()(" \o args \o ")"
+     [] site = "do"       -> "do {\n  h = " \o F \o "\n  return h(" \o args \o ")\n}"
+     [] site = "output"   -> "output o = " \o F \o "\no(" \o args \o ")"
+     [] site = "reduce"   -> "reduce([1, 2], " \o F \o ", 0)"
+     [] site = "nested"   -> "outer = q => " \o P \o "(" \o args \o ")\nouter(3)")
+LambdaCases == {[kind |-> "text", text |-> Program(ps, b, site, args), inputs |-> "{\"a\": 4}"] :
+                  ps \in ParamForms, b \in BodyForms, site \in Sites, args \in ArgForms}
+
 VARIABLE c
 CallCases == UNION {UNION {{[kind |-> "call", name |-> n, args |-> t] : t \in [1..k -> PoolFor(k)]} : k \in TupleLens(n)} : n \in BuiltinNames}
 TokCases == UNION {{[kind |-> "tokens", toks |-> t] : t \in [1..k -> Tokens]} : k \in 1..MaxTok}
-CInit == c \in CallCases \cup TokCases
+CInit == c \in CallCases \cup TokCases \cup LambdaCases
 CNext == UNCHANGED c
 CSpec == CInit /\ [][CNext]_c
 
 Emit == PrintT(<<"CASE", ToJson(IF c.kind = "call" THEN [kind |-> "call", name |-> c.name, args |-> c.args, arity_error |-> ArityError(c.name, Len(c.args))]
-                                                   ELSE [kind |-> "tokens", toks |-> c.toks])>>)
+                                                   ELSE c)>>)
 =============================================================================
